@@ -7,12 +7,12 @@ PROPS="$*"
 [ -n "$PROPS" ] || PROPS=$(basename "$D" | cut -d- -f1)
 W=/tmp/wt-seedtest.$$
 git -C /repo worktree add -q --detach $W HEAD || exit 2
-cd $W && git apply "$D/patch.diff" || { echo "PATCH DOES NOT APPLY"; cd /; git -C /repo worktree remove --force $W; exit 3; }
+cd $W && git apply "$D/patch.diff" || { echo "PATCH DOES NOT APPLY"; cd /; git -C /repo worktree remove --force $W; rm -rf $W.out; exit 3; }
 echo "== $(basename $D): $(git diff --stat | tail -1)"
 [ -n "${SKIP_BASELINE:-}" ] || /verif/bin/baseline.sh $W | head -1
 for P in $PROPS; do
-  out=$(cd /verif && VERIF_REPO=$W bin/check.sh $P quick 2>&1)
+  out=$(cd /verif && VERIF_OUT=$W.out VERIF_REPO=$W bin/check.sh $P quick 2>&1)
   echo "$out" | grep -E "^(VIOLATION|OK|HARNESS)" | cut -c1-260 | head -${SEED_LINES:-3}
   echo "   -> $P: $(echo "$out" | grep -cE '^VIOLATION') violation classes"
 done
-cd /; git -C /repo worktree remove --force $W
+cd /; git -C /repo worktree remove --force $W; rm -rf $W.out
